@@ -10,10 +10,7 @@ import sys
 sys.path.insert(0, os.path.dirname(os.path.dirname(os.path.abspath(__file__))))
 from vf import driver as D, props as P, kani as K  # noqa
 
-NA = {
-    'C09': 'orders two event streams (persistence completions vs outbound messages) under all completion patterns; the state is mutated inline in lock-taking ChannelManager/FundedChannel/ChainMonitor methods generic over signer, persister and broadcaster; no function pre/postcondition expresses "released only after completion" and neither verifier models a scheduler (DESIGN §C09)',
-    'C10': 'quantifies over crash points between durable writes and stale manager snapshots; mechanism is from_channel_manager_data (~1700 lines over hash maps, monitors, signer); function contracts cannot express "for every prefix of the write sequence" and neither tool can construct a ChannelManager or ChannelMonitor (DESIGN §C10)',
-}
+NA = {}
 
 
 def main():
